@@ -705,11 +705,11 @@ fn fix_guards(r: &mut Rng, prog: &Value, fl: u32) -> Value {
             };
             let guard_cost = if fl & 0x2000 != 0 { 500 } else { 140 };
             let declared = match r.below(12) {
-                0 => c + guard_cost + 1,
-                1 => (c + guard_cost).saturating_sub(1),
+                0 => c.saturating_add(guard_cost + 1),
+                1 => c.saturating_add(guard_cost).saturating_sub(1),
                 2 => 0,
                 3 => u64::MAX >> r.below(20),
-                _ => c + guard_cost,
+                _ => c.saturating_add(guard_cost),
             };
             let mut b = declared.to_be_bytes().to_vec();
             while !b.is_empty() && b[0] == 0 {
@@ -1049,7 +1049,7 @@ fn main() {
                 let base = run_one(&mut out, case, &prog, &env, &Cfg::new("base", "chia", 0, 0), &mut line);
                 if base["ok"] == json!(true) && r.chance(1, 3) {
                     let c = le_n(&base["cost"]) as u64;
-                    let m = *r.pick(&[c, c.saturating_sub(1), c + 1, c / 2 + 1]);
+                    let m = *r.pick(&[c, c.saturating_sub(1), c.saturating_add(1), c / 2 + 1]);
                     run_one(&mut out, case, &prog, &env, &Cfg::new("budget", "chia", 0, m.max(1)), &mut line);
                 }
             }
@@ -1058,9 +1058,9 @@ fn main() {
                 let base = run_one(&mut out, case, &prog, &env, &Cfg::new("base", "chia", base_flags, 0), &mut line);
                 if base.get("skip").is_some() { continue; }
                 let c = if base["ok"] == json!(true) { le_n(&base["cost"]) as u64 } else { 1 + r.below(5000) };
-                let mut budgets = vec![c, c.saturating_sub(1).max(1), c + 1, c * 2 + 7, u64::MAX, 1];
+                let mut budgets = vec![c, c.saturating_sub(1).max(1), c.saturating_add(1), c.saturating_mul(2).saturating_add(7), u64::MAX, 1];
                 for _ in 0..3 {
-                    budgets.push(1 + r.below(c + 3));
+                    budgets.push(1 + r.below(c.saturating_add(3).min(u64::MAX - 2)));
                 }
                 budgets.sort();
                 budgets.dedup();
